@@ -53,3 +53,16 @@ Theorem C05_canary_deployment_handed_back : forall p wr f d d',
   CtlPlane.cdep_finalize p wr f d = (CtlPlane.Done, d') -> CtlPlane.cdep_released d' = true.
 Proof. exact Proofs.CtlPlane.cdep_finalize_done_means_released. Qed.
 Print Assumptions C05_canary_deployment_handed_back.
+
+(* ---------- blue-green control planes (Deployment, CloneSet) and the HPA: handed back as configured ---------- *)
+From RV Require Model.HandBack Corr.HandBack Proofs.HandBack.
+(* a blue-green release -- Initialize, any number of UpgradeBatch calls, Finalize -- in which the n-th Patch call fails (any
+   n, or none) and each phase is retried until it succeeds hands the workload back as the user configured it:
+   minReadySeconds, progressDeadlineSeconds, maxSurge, maxUnavailable (absent fields read as their defaults), un-paused,
+   control and original-strategy annotations and the stable-revision label removed, the HPA pointing at it again *)
+Theorem C05_bluegreen_workload_handed_back_as_configured : forall k n steps f w0 errs w,
+  HandBack.fresh w0 = true ->
+  HandBack.scenario k n false (HandBack.PInit :: map HandBack.PUpgrade steps ++ [HandBack.PFinal]) f w0 = (errs, w) ->
+  Corr.HandBack.all_phases_done errs = true -> HandBack.handed_back k w0 w = true.
+Proof. exact Proofs.HandBack.handed_back_as_configured. Qed.
+Print Assumptions C05_bluegreen_workload_handed_back_as_configured.
